@@ -11,7 +11,11 @@ Recorded findings (replayed on the real code by `harness/props/c17.py` on every 
 * F28 the bindings of a parametrised base are recorded under the base's parameter *names*, unsubstituted and one level
   deep only (`C17_mono_renamed_witness`, `C17_mono_capture_witness`, `C17_mono_composed_witness`, `C17_mono_deep_witness`,
   `C17_unbound_capture_witness`);
-* F29 `Self` inside a generic class becomes the unparametrised origin class (`C17_mono_self_witness`).
+* F29 `Self` inside a generic class becomes the unparametrised origin class (`C17_mono_self_witness`);
+* F50 the UNSTRUCTURE hook of a parametrised generic alias is that of the alias' unsubstituted value
+  (`C17_alias_unstructure_witness`);
+* F51 the bare class of `class G(B[T], Generic[T])` maps `T` to the type variable `T` itself: the hook is created and
+  structuring fails only where the payload reaches `T` (`C17_unbound_passthrough_witness`).
 -/
 namespace CattrsModel
 open Generics
@@ -57,6 +61,14 @@ def deepChain : List Level :=
   [lv "C" [] [("z", tInt)] [tInt] false, lv "H" ["T"] [("a", T)] [tStr], lv "HH" ["U"] [("u", U)]]
 -- F29: `class SG(Generic[T]): a: T; nxt: Optional[Self]`
 def selfGenericChain : List Level := [lv "SG" ["T"] [("a", T), ("nxt", .app "Union" [.self, tNone])]]
+-- F51: `class PG(PB[T], Generic[T]): b: Optional[list[T]]`, `class PB(Generic[T]): a: Optional[T]`
+def passChain : List Level :=
+  [lv "PG" ["T"] [("b", .app "Union" [.app "list" [T], tNone])] [T], lv "PB" ["T"] [("a", .app "Union" [T, tNone])]]
+/-- `class Child(Mixin, Parent[int, U], Generic[U]): c: Optional[U]` over `class Parent(Generic[T, U]): a: T; b: list[U]`:
+    a plain mixin is listed BEFORE the parametrised base, another one after it -/
+def mixinChain : List Level :=
+  [{ lv "Child" ["U"] [("c", .app "Union" [U, tNone])] [tInt, U] with plainBefore := 1, plainAfter := 1 },
+   lv "Parent" ["T", "U"] [("a", T), ("b", .app "list" [U])]]
 end C17Ex
 open C17Ex
 
@@ -223,6 +235,60 @@ theorem C17_mono_self_witness :
     scopeB selfGenericChain [tInt] = false := by
   decide
 
+/-! ## non-generic bases (multiple inheritance) -/
+
+/-- Non-generic entries of `__orig_bases__` — plain mixins before or after the parametrised base — are invisible to
+    both loops over `__orig_bases__` (`generate_mapping`'s, and `make_dict_structure_fn`'s search for the first
+    parametrised base): the mapping handed to the templates, hence every generated hook, is the one of the same chain
+    without them.  (`C17_mono_partial` is stated for all chains, so it covers classes with such mixins.) -/
+theorem C17_plain_bases_skipped (chain : List Level) (dfl m : Mapping) :
+    genMapBare dfl (origBases chain) m = genMapBare dfl (origBasesCore chain) m ∧
+    firstParamBase (origBases chain) = firstParamBase (origBasesCore chain) ∧
+    dropPlain (origBases chain) = origBasesCore chain := by
+  refine ⟨?_, ?_, dropPlain_origBases chain⟩
+  · rw [genMapBare_dropPlain, dropPlain_origBases]
+  · rw [firstParamBase_dropPlain, dropPlain_origBases]
+
+/-- non-vacuity: a mixin listed first really is the first entry of `__orig_bases__`, the parametrised base is found
+    behind it, and `Child[float]` gets the copy's field types -/
+example : origBases mixinChain = [.plain, .param ["T", "U"] [tInt, U], .plain, .generic ["U"]] ∧
+    scopeB mixinChain [.lf "float"] = true ∧
+    structGen mixinChain (.alias [.lf "float"]) = some
+      [("a", tInt), ("b", .app "list" [.lf "float"]), ("c", .app "Union" [.lf "float", tNone])] := by
+  decide
+
+/-! ## generic aliases -/
+
+/-- `type Alias[params…] = value`: structuring as `Alias[args…]` hands on `value` with every parameter replaced by the
+    argument given for THAT parameter — `zipMap` pairs parameters and arguments by declared position, whatever the
+    order (or number) of the parameters' occurrences in `value` — for closed arguments, a value in the scope of
+    `C17_subst_partial` that is not itself a PEP 604 union (F27), and whose `__name__` is not the name of a parameter
+    (unless it is that parameter: `type A[T] = T`). -/
+theorem C17_alias (params : List String) (value : Ann) (args : List Ann)
+    (hcl : closedL args = true) (hok : annOk value = true)
+    (hname : ∀ n, dunderName value = some n → (∀ k, value ≠ .tv k) → lookup (zipMap params args) n = none)
+    (hpu : ∀ ms, value ≠ .pu ms) :
+    aliasResolve params value args = some (subst (zipMap params args) none value) ∧
+    (params.Nodup → ∀ p a, (p, a) ∈ params.zip args → lookup (zipMap params args) p = some a) :=
+  ⟨aliasResolve_eq_subst params value args hcl hok hname hpu,
+   fun hn p a h => lookup_bindAll_zip p a params args [] hn h⟩
+
+/-- non-vacuity: `type Rev[V, K] = dict[K, V]` (parameters appear in another order than declared),
+    `type Tagged[Tag, Item] = list[Item]` (a parameter that is not used), `type Table[V, K] = dict[K, list[tuple[V, Optional[K]]]]` -/
+example : aliasResolve ["V", "K"] (.app "dict" [.tv "K", .tv "V"]) [tInt, tStr] = some (.app "dict" [tStr, tInt]) ∧
+    aliasResolve ["Tag", "Item"] (.app "list" [.tv "Item"]) [tStr, tInt] = some (.app "list" [tInt]) ∧
+    aliasResolve ["V", "K"] (.app "dict" [.tv "K", .app "list" [.app "tuple" [.tv "V", .app "Union" [.tv "K", tNone]]]])
+        [.lf "float", tInt]
+      = some (.app "dict" [tInt, .app "list" [.app "tuple" [.lf "float", .app "Union" [tInt, tNone]]]]) := by
+  decide
+
+/-- F50: on the unstructure side the hook used for `Rev[Leaf, str]` is that of `dict[K, V]`, not of `dict[str, Leaf]` -/
+theorem C17_alias_unstructure_witness :
+    aliasUnstructType ["V", "K"] (.app "dict" [.tv "K", .tv "V"]) [.lf "Leaf", tStr] = .app "dict" [.tv "K", .tv "V"] ∧
+    aliasUnstructType ["V", "K"] (.app "dict" [.tv "K", .tv "V"]) [.lf "Leaf", tStr]
+      ≠ subst (zipMap ["V", "K"] [.lf "Leaf", tStr]) none (.app "dict" [.tv "K", .tv "V"]) := by
+  decide
+
 /-! ## different parametrisations never interfere -/
 
 /-- Whatever hooks were requested before on the same converter (other parametrisations of the same class, other
@@ -269,7 +335,10 @@ theorem C17_names_collision_witness :
    a parameter of the head class that the target leaves unbound and that has no default makes `refuses` true.
    Proved under the additional hypothesis that the base class does not bind a parameter of that name to a concrete
    type, and for parameters that some own field mentions.  `refuses` = the hook cannot be created ("Missing type for
-   generic argument") or a field type bound into it still mentions a type variable (for which no hook exists). -/
+   generic argument") or a field type bound into it still mentions a type variable (for which no hook exists: the
+   failure then comes from looking up / calling the handler of that field, which lazily dispatching hooks — Optional,
+   sets, field converters — postpone until a payload reaches the variable: F51; `C17_unbound_upfront` below is the
+   payload-independent part). -/
 theorem C17_unbound_refused_partial (lv : Level) (rest : List Level) (tgt : Target) (p : String)
     (hunb : match tgt with
       | .alias args => OnlyTv lv.params args p
@@ -280,6 +349,33 @@ theorem C17_unbound_refused_partial (lv : Level) (rest : List Level) (tgt : Targ
 
 example : refuses goodChain .bare = true ∧ refuses goodChain (.alias [T]) = true ∧
     structGen goodChain (.alias [T]) = none ∧ refuses goodChain (.alias [tInt]) = false := by decide
+
+/-- The refusal that does not depend on the payload: when the target leaves `p` unbound, `p` has no default and the
+    base class does not bind the name `p` (for the bare class: has no parameter of that name at all), the mapping handed
+    to the templates has no entry for `p`, so NO hook is created ("Missing type for generic argument") — by any of the
+    three templates, whether or not a field mentions `p`, whatever payload would have followed. -/
+theorem C17_unbound_upfront (lv : Level) (rest : List Level) (tgt : Target) (p : String) (hp : p ∈ lv.params)
+    (hunb : match tgt with
+      | .alias args => OnlyTv lv.params args p
+      | .bare => lookup (globalDefaults (lv :: rest)) p = none)
+    (hcap : ∀ b, rest.head? = some b → match tgt with
+      | .alias _ => OnlyTv b.params lv.baseArgs p
+      | .bare => p ∉ b.params) :
+    structGen (lv :: rest) tgt = none ∧ structGenTD (lv :: rest) tgt = none ∧ structGenTDFast (lv :: rest) tgt = none := by
+  have h := unbound_upfront lv rest tgt p hp hunb hcap
+  simp [structGen, structGenTD, structGenTDFast, h]
+
+example : structGen goodChain (.alias [T]) = none ∧ structGen mixinChain (.alias [U]) = none ∧
+    structGen [lv "P" ["T"] [("d", .app "Union" [T, tNone])]] .bare = none := by decide
+
+/-- F51: for the BARE class of `class PG(PB[T], Generic[T])` the loop over `__orig_bases__` records `T ↦ T` (it does not
+    skip type-variable arguments): the hook IS created, with field types that still mention `T` — structuring then fails
+    only where a payload reaches `T` (`{'a': None, 'b': None}` is accepted).  `PG[T]` is refused up front. -/
+theorem C17_unbound_passthrough_witness :
+    structGen passChain .bare = some [("a", .app "Union" [T, tNone]), ("b", .app "Union" [.app "list" [T], tNone])] ∧
+    lookup (structMapping passChain .bare) "T" = some T ∧
+    structGen passChain (.alias [T]) = none := by
+  decide
 
 /-- F28: with `class G(B[int], Generic[T])` over `class B(Generic[T])` the bare `G` and `G[T]` are not refused: `T` is guessed to be `int` -/
 theorem C17_unbound_capture_witness :
@@ -306,8 +402,9 @@ theorem C17_td_detailed_same (chain : List Level) (tgt : Target)
 
 example : (∀ n v, lookup (structMapping goodChain (.alias [tStr])) n = some v → closed v = true) := by
   intro n v h
-  simp only [goodChain, lv, structMapping, generateMapping, origBases, firstParamBase, bindSkipTv, T, tInt, tStr,
-    List.isEmpty_cons, Bool.false_eq_true, ↓reduceIte, List.cons_append, List.nil_append, lookup_cons, lookup] at h
+  have e : structMapping goodChain (.alias [tStr]) = [("W", tInt), ("T", tStr)] := by decide
+  rw [e] at h
+  simp only [lookup] at h
   split at h
   · cases h; decide
   · split at h
